@@ -209,6 +209,8 @@ Definition num_abs (n : nty) (a : Z) : Z := if a <? 0 then norm n (- a) else a.
 Definition num_mod (n : nty) (a b : Z) : Z :=
   let r := Z.rem a b in if r <? 0 then norm n (r + num_abs n b) else r.
 
+Definition sz_limit (d : sdom) : Z := match d with SzA => 50 | _ => 10 end.
+
 Definition box_bump (d : dom) (n : nty) (z : Z) : Z :=
   match d with DA => norm n (z + 1) | DB => norm n (z + z) end.
 
@@ -333,6 +335,10 @@ Definition prim_eval (p : prim) (vs : list value) : pres :=
   | PAGet _, [VAStr xs; VNum _ i] =>
       if (0 <=? i) then match nth_error xs (Z.to_nat i) with Some x => PVal (VStr x) | None => PUndef end
       else PUndef
+  (* Sized: limit is 10 by default, 50 in SzA.  twice is by default 2 * limit with limit looked
+     up in the domain (%): 100 in SzA, 20 in SzB; SzC defines its own twice as limit + 1 = 11. *)
+  | PSzLimit d, [] => PVal (VNum NMI (sz_limit d))
+  | PSzTwice d, [] => PVal (VNum NMI (match d with SzC => wrap64 (sz_limit d + 1) | _ => wrap64 (2 * sz_limit d) end))
   | _, _ => PStuck
   end.
 
